@@ -119,7 +119,7 @@ Importer::~Importer()
 std::vector<ImportSourcePtr>::const_iterator Importer::ImporterImpl::findImportSource(const ImportSourcePtr &importSource) const
 {
     return std::find_if(mImports.begin(), mImports.end(),
-                        [=](const ImportSourcePtr &importSrc) -> bool { return importSource->equals(importSrc); });
+                        [=](const ImportSourcePtr &importSrc) -> bool { return importSrc->equals(importSource); });
 }
 
 std::string Importer::ImporterImpl::modelUrl(const ModelPtr &model) const
@@ -686,6 +686,10 @@ void clearComponentImports(const ComponentPtr &component)
 
 void Importer::clearImports(ModelPtr &model)
 {
+    if (model == nullptr) {
+        return;
+    }
+
     // Clear the models from all import sources in the model.
     for (size_t u = 0; u < model->unitsCount(); ++u) {
         auto mu = model->units(u);
